@@ -31,15 +31,18 @@ Disps == IF Lvl = 1 THEN { <<2, -1, 0>> } ELSE { <<0, 0, 0>>, <<2, -1, 0>>, <<0,
 Carriers == {"surftr", "trclnum", "trclinline", "trclstar", "implicit", "implicitneg", "implicitdense"}
 (* facet of the body the probe cells refer to (0 = the whole body / an ordinary surface) *)
 FacetsOf(c) == IF c.k = "rpp" THEN {0, 1, 4, 5} ELSE IF c.k = "rcc" THEN {0, 1, 2} ELSE {0}
-Spells == {"12", "13", "star", "rows12", "rows13", "rows23", "cols12", "cols13", "cols23"}
+Spells == {"12", "13", "star", "rows12", "rows13", "rows23", "cols12", "cols13", "cols23", "3", "star3"}
+IdM9 == <<1,0,0, 0,1,0, 0,0,1>>
 
 VARIABLES pc, rec
 Init == pc = "pick" /\ rec = <<>>
 Pick == /\ pc = "pick"
         /\ \E c \in SamplesL, m \in Rotations24, o \in Disps, ca \in Carriers, sp \in Spells, fk \in {0, 1, 2, 4, 5} :
               /\ fk \in FacetsOf(c)
-              /\ (ca \in {"trclinline", "trclstar"} => sp \in {"12", "13", "star"})
-              /\ (ca = "trclstar" <=> sp = "star") \/ ca \notin {"trclinline", "trclstar"}
+              /\ (ca \in {"trclinline", "trclstar"} => sp \in {"12", "13", "star", "3", "star3"})
+              /\ (ca = "trclstar" <=> sp \in {"star", "star3"}) \/ ca \notin {"trclinline", "trclstar"}
+              (* a displacement alone (three entries, with or without the star) is a pure translation *)
+              /\ (sp \in {"3", "star3"} => m = IdM9)
               /\ rec' = [card |-> c, tr |-> [o |-> o, m |-> m], carrier |-> ca, spell |-> sp, facet |-> fk]
         /\ pc' = "emit"
 Emit == pc = "emit" /\ PrintT(ToJson(rec)) /\ pc' = "done" /\ UNCHANGED rec
